@@ -1,3 +1,6 @@
 // ---- trusted std specs: String / str (byte length is the UTF-8 length) ----
 pub assume_specification [String::len] (s: &String) -> (r: usize)
     ensures r == vstd::utf8::encode_utf8(s@).len();
+pub assume_specification [String::as_bytes] (s: &String) -> (r: &[u8])
+    ensures r@ == vstd::utf8::encode_utf8(s@);
+
